@@ -129,6 +129,17 @@ func goroutines() map[uint64]gInfo {
 	return out
 }
 
+// freeCollectorBusy reports whether the graveyard collector goroutine is running or runnable (i.e. neither idle
+// -- select, sleep, channel receive -- nor itself waiting for a mutex).
+func freeCollectorBusy() bool {
+	for _, gi := range goroutines() {
+		if strings.Contains(gi.stack, "statedb.graveyardWorker") {
+			return gi.reason == "running" || gi.reason == "runnable"
+		}
+	}
+	return false
+}
+
 func isMutexWait(reason string) bool {
 	return strings.HasPrefix(reason, "sync.Mutex.Lock") || strings.HasPrefix(reason, "semacquire") ||
 		strings.HasPrefix(reason, "sync.RWMutex")
@@ -226,6 +237,12 @@ func (s *scheduler) settle(a *schedActor) []map[string]any {
 		gi := goroutines()[a.gid]
 		if a == s.gc && (gi.reason == "" || strings.HasPrefix(gi.reason, "select") || strings.HasPrefix(gi.reason, "sleep")) {
 			break // the collector finished its pass and waits for the next trigger (or exited: DB.Stop)
+		}
+		if isMutexWait(gi.reason) && s.gc == nil && freeCollectorBusy() && time.Now().Before(deadline) {
+			// the collector is not an actor of this script and is in the middle of a pass (it holds a table lock
+			// for a few instructions): the actor is waiting for it, not for a parked actor
+			time.Sleep(50 * time.Microsecond)
+			continue
 		}
 		if isMutexWait(gi.reason) {
 			s.mu.Lock()
